@@ -472,7 +472,7 @@ func (p *parser) _act(prod int32) any {
 		)
 	case 6:
 		return p.on_parser_statement(
-			_cast[_i0.Statement](p._stack.Peek(0).Sym),
+			_cast[*_i0.ParserRule](p._stack.Peek(0).Sym),
 		)
 	case 7:
 		return p.on_parser_statement__nl(
@@ -563,7 +563,7 @@ func (p *parser) _act(prod int32) any {
 		)
 	case 24:
 		return p.on_lexer_statement(
-			_cast[_i0.Statement](p._stack.Peek(0).Sym),
+			_cast[*_i0.Mode](p._stack.Peek(0).Sym),
 		)
 	case 25:
 		return p.on_lexer_statement(
@@ -571,19 +571,19 @@ func (p *parser) _act(prod int32) any {
 		)
 	case 26:
 		return p.on_lexer_rule(
-			_cast[_i0.Statement](p._stack.Peek(0).Sym),
+			_cast[*_i0.TokenRule](p._stack.Peek(0).Sym),
 		)
 	case 27:
 		return p.on_lexer_rule(
-			_cast[_i0.Statement](p._stack.Peek(0).Sym),
+			_cast[*_i0.FragRule](p._stack.Peek(0).Sym),
 		)
 	case 28:
 		return p.on_lexer_rule(
-			_cast[_i0.Statement](p._stack.Peek(0).Sym),
+			_cast[*_i0.MacroRule](p._stack.Peek(0).Sym),
 		)
 	case 29:
 		return p.on_lexer_rule(
-			_cast[_i0.Statement](p._stack.Peek(0).Sym),
+			_cast[*_i0.ExternalRule](p._stack.Peek(0).Sym),
 		)
 	case 30:
 		return p.on_lexer_rule__nl(
@@ -688,9 +688,9 @@ func (p *parser) _act(prod int32) any {
 		)
 	case 50:
 		return p.on_char_class_expr__binary(
-			_cast[_i0.CharClassExpr](p._stack.Peek(2).Sym),
+			_cast[*_i0.CharClass](p._stack.Peek(2).Sym),
 			_cast[Token](p._stack.Peek(1).Sym),
-			_cast[_i0.CharClassExpr](p._stack.Peek(0).Sym),
+			_cast[*_i0.CharClass](p._stack.Peek(0).Sym),
 		)
 	case 51:
 		return p.on_char_class_expr__char_class(
@@ -713,19 +713,19 @@ func (p *parser) _act(prod int32) any {
 		)
 	case 55:
 		return p.on_action(
-			_cast[_i0.Action](p._stack.Peek(0).Sym),
+			_cast[*_i0.ActionDiscard](p._stack.Peek(0).Sym),
 		)
 	case 56:
 		return p.on_action(
-			_cast[_i0.Action](p._stack.Peek(0).Sym),
+			_cast[*_i0.ActionPushMode](p._stack.Peek(0).Sym),
 		)
 	case 57:
 		return p.on_action(
-			_cast[_i0.Action](p._stack.Peek(0).Sym),
+			_cast[*_i0.ActionPopMode](p._stack.Peek(0).Sym),
 		)
 	case 58:
 		return p.on_action(
-			_cast[_i0.Action](p._stack.Peek(0).Sym),
+			_cast[*_i0.ActionEmit](p._stack.Peek(0).Sym),
 		)
 	case 59:
 		return p.on_action_discard(
